@@ -24,7 +24,7 @@ from harness.common.shrink import ddmin
 from harness.props import c06_facts
 
 PROP = "C06"
-DRIVER_MODULES = ["PsutilModel.Model.C06Gen", "PsutilModel.Spec.C06"]
+DRIVER_MODULES = ["PsutilModel.Model.C06Gen", "PsutilModel.Spec.C06", "PsutilModel.Spec.C06Ext"]
 NEEDS_EXT = True
 TRUSTED = [
     "C06 renderers: Spec.renderStat / Spec.renderStatus are transcriptions of do_task_stat / proc_pid_status (Name: escapes only \\n and \\\\); validated on every run against the live kernel's files of this process, its parent, PID 1 and a child renamed with prctl(PR_SET_NAME) to hostile names, not verified",
